@@ -55,6 +55,8 @@ def failconds(body, g):
       ('bool', expr, truth)
     """
     out = []
+    if g.get('fcs') is not None:
+        return list(g['fcs'])   # guard inlined from a helper: conditions already normalised and substituted
     cond = g['cond']
     fails = g['fail']
     if not fails:
@@ -324,6 +326,7 @@ def inlined_guards(body, pred, depth=1):
                 if any(_safe(pred, fc) for fc in fcs):
                     pg = dict(g)
                     pg['cond'] = subst(gf['cond'], m)
+                    pg['fcs'] = fcs
                     pg['inlined_from'] = f.path
                     out.append(pg)
     return out
